@@ -138,8 +138,9 @@ func entryFunc(frames []string) string {
 }
 
 type report struct {
-	pair string
-	kind string
+	pair   string
+	kind   string
+	detail []string // the neutrino frames of the two accesses with file:line (for the replay)
 }
 
 func parseReports(text string) []report {
@@ -149,6 +150,8 @@ func parseReports(text string) []report {
 		var stacks [][]string
 		var kinds []string
 		var cur []string
+		var detail []string
+		lastFrame := ""
 		inAccess := false
 		flush := func() {
 			if inAccess {
@@ -164,11 +167,26 @@ func parseReports(text string) []report {
 				flush()
 				inAccess = true
 				kinds = append(kinds, strings.ToLower(strings.Fields(strings.TrimPrefix(tl, "Previous "))[0]))
+				detail = append(detail, strings.ToLower(strings.TrimSuffix(strings.Join(strings.Fields(tl)[:2], " "), " at"))+" by:")
 			case strings.HasPrefix(tl, "Goroutine "), strings.HasPrefix(tl, "=========="):
 				flush()
 			default:
 				if m := frameRe.FindStringSubmatch(line); m != nil && inAccess {
 					cur = append(cur, m[1])
+					lastFrame = m[1]
+				} else if inAccess && lastFrame != "" && strings.Contains(lastFrame, "github.com/lightninglabs/neutrino") {
+					// the source position of the frame just seen (path relative to the repository)
+					if f := strings.Fields(tl); len(f) > 0 && strings.Contains(f[0], ".go:") {
+						pos := f[0]
+						for _, root := range []string{"/repo/", "/neutrino/"} {
+							if i := strings.LastIndex(pos, root); i >= 0 {
+								pos = pos[i+len(root):]
+								break
+							}
+						}
+						detail = append(detail, "  "+strings.TrimPrefix(lastFrame, "github.com/lightninglabs/")+" "+pos)
+					}
+					lastFrame = ""
 				}
 			}
 		}
@@ -190,7 +208,7 @@ func parseReports(text string) []report {
 			a, b = b, a
 		}
 		sort.Strings(kinds)
-		r := report{pair: a + "|" + b, kind: strings.Join(kinds, "/")}
+		r := report{pair: a + "|" + b, kind: strings.Join(kinds, "/"), detail: detail}
 		if !seen[r.pair] {
 			seen[r.pair] = true
 			out = append(out, r)
@@ -302,6 +320,9 @@ func Run(t *tr.W, thorough bool) {
 		}
 		for i, r := range reps {
 			t.Op(fmt.Sprintf("race %d", i+1), r.pair+" "+r.kind)
+			for _, d := range r.detail {
+				t.Line("# race %d: %s", i+1, d)
+			}
 			t.Hit("race.report")
 		}
 	}
